@@ -557,3 +557,104 @@ Example ex_same_signed :
   pre_struct f1 = pre_struct f2 /\ pre_struct f1 <> None /\ t_data f1 <> t_data f2
   /\ addr_ok (t_from f1) = true /\ data_icon (t_data f1) = true.
 Proof. cbv zeta. split; [vm_compute; reflexivity|]. split; [vm_compute; discriminate|]. split; [discriminate|]. split; reflexivity. Qed.
+
+(* ================================================================== *)
+(* The property at full strength is refuted by the implemented format:  *)
+(* witnesses (known findings F1, F2/F3 and the number printing)          *)
+(* ================================================================== *)
+
+Lemma same_pre_same_id (H : bytes -> bytes) (dec : bytes -> option bytes) m1 m2 t1 t2 :
+  pre_map m1 = pre_map m2 ->
+  from_json H dec (JObj m1) = Ok t1 -> from_json H dec (JObj m2) = Ok t2 -> id H t1 = id H t2.
+Proof.
+  intros E F1 F2. destruct (from_json_id H dec _ _ F1) as (p1 & P1 & I1).
+  destruct (from_json_id H dec _ _ F2) as (p2 & P2 & I2). congruence.
+Qed.
+
+Definition is_ok {A} (r : result A) : bool := match r with Ok _ => true | _ => false end.
+Lemma is_ok_exists {A} (r : result A) : is_ok r = true -> exists t, r = Ok t.
+Proof. destruct r; try discriminate. eauto. Qed.
+
+Definition wit_map (data : json) : list (bytes * json) :=
+  [(str "version", JStr (str "0x3")); (str "from", JStr ex_addr); (str "to", JStr ex_addr);
+   (str "stepLimit", JStr (str "0x186a0")); (str "timestamp", JStr (str "0x1"));
+   (str "signature", JStr ex_sig); (str "dataType", JStr (str "message")); (str "data", data)].
+
+(* what "changing any signed field changes the id" would say for JSON submissions *)
+Definition data_change_changes_id (d1 d2 : json) : Prop :=
+  d1 <> d2 ->
+  forall (H : bytes -> bytes) (dec : bytes -> option bytes) t1 t2,
+    from_json H dec (JObj (wit_map d1)) = Ok t1 -> from_json H dec (JObj (wit_map d2)) = Ok t2 ->
+    id H t1 = id H t2 -> collision H.
+
+(* F1: ["","a"] against ["a"] — both accepted, different data, one id for every H *)
+Theorem leading_empty_refuted :
+  let d1 := JList [JStr []; JStr (str "a")] in let d2 := JList [JStr (str "a")] in
+  d1 <> d2
+  /\ (forall (H : bytes -> bytes) dec t1 t2,
+        from_json H dec (JObj (wit_map d1)) = Ok t1 -> from_json H dec (JObj (wit_map d2)) = Ok t2 ->
+        id H t1 = id H t2)
+  /\ (exists t1 t2, from_json ex_H ex_dec (JObj (wit_map d1)) = Ok t1
+                    /\ from_json ex_H ex_dec (JObj (wit_map d2)) = Ok t2)
+  /\ ~ data_change_changes_id d1 d2.
+Proof.
+  cbv zeta.
+  assert (E : pre_map (wit_map (JList [JStr []; JStr (str "a")])) = pre_map (wit_map (JList [JStr (str "a")])))
+    by (vm_compute; reflexivity).
+  assert (X : exists t1 t2, from_json ex_H ex_dec (JObj (wit_map (JList [JStr []; JStr (str "a")]))) = Ok t1
+                    /\ from_json ex_H ex_dec (JObj (wit_map (JList [JStr (str "a")]))) = Ok t2).
+  { destruct (is_ok_exists (from_json ex_H ex_dec (JObj (wit_map (JList [JStr []; JStr (str "a")]))))) as [t1 E1];
+      [vm_compute; reflexivity|].
+    destruct (is_ok_exists (from_json ex_H ex_dec (JObj (wit_map (JList [JStr (str "a")]))))) as [t2 E2];
+      [vm_compute; reflexivity|]. eauto. }
+  split; [discriminate|]. split; [intros; eapply same_pre_same_id; eauto|]. split; [exact X|].
+  intro Hp. destruct X as (t1 & t2 & E1 & E2).
+  destruct (Hp ltac:(discriminate) ex_H ex_dec t1 t2 E1 E2 (same_pre_same_id _ _ _ _ _ _ E E1 E2)) as (p & q & Npq & Epq).
+  apply Npq. exact Epq.
+Qed.
+
+(* the number printing: {"a":1} (also 1.5) against {"a":"1"} *)
+Theorem number_string_refuted :
+  let d1 := JObj [(str "a", JNum 1)] in let d2 := JObj [(str "a", JStr (str "1"))] in
+  d1 <> d2
+  /\ (forall (H : bytes -> bytes) dec t1 t2,
+        from_json H dec (JObj (wit_map d1)) = Ok t1 -> from_json H dec (JObj (wit_map d2)) = Ok t2 ->
+        id H t1 = id H t2)
+  /\ (exists t1 t2, from_json ex_H ex_dec (JObj (wit_map d1)) = Ok t1
+                    /\ from_json ex_H ex_dec (JObj (wit_map d2)) = Ok t2).
+Proof.
+  cbv zeta.
+  assert (E : pre_map (wit_map (JObj [(str "a", JNum 1)])) = pre_map (wit_map (JObj [(str "a", JStr (str "1"))])))
+    by (vm_compute; reflexivity).
+  split; [discriminate|]. split; [intros; eapply same_pre_same_id; eauto|].
+  destruct (is_ok_exists (from_json ex_H ex_dec (JObj (wit_map (JObj [(str "a", JNum 1)]))))) as [t1 E1];
+    [vm_compute; reflexivity|].
+  destruct (is_ok_exists (from_json ex_H ex_dec (JObj (wit_map (JObj [(str "a", JStr (str "1"))]))))) as [t2 E2];
+    [vm_compute; reflexivity|]. eauto.
+Qed.
+
+(* F2: a stored transaction (struct path) and a JSON transaction with another
+   dataType and an extra field: one id for every H; the stored form is well
+   formed (it round-trips through the binary form) and the JSON one is accepted *)
+Theorem datatype_unescaped_refuted :
+  t_dataType ex_f_struct = Some (str "message.extra.b")
+  /\ lookup (str "dataType") ex_m_json = Some (JStr (str "message"))
+  /\ wf_fields ex_f_struct = true /\ wf_sig (t_sig ex_f_struct) = true
+  /\ (forall (H : bytes -> bytes) dec t,
+        from_json H dec (JObj ex_m_json) = Ok t -> id H t = id H (TxStruct ex_f_struct))
+  /\ (exists t, from_json ex_H ex_dec (JObj ex_m_json) = Ok t).
+Proof.
+  split; [reflexivity|]. split; [reflexivity|]. split; [reflexivity|]. split; [reflexivity|]. split.
+  - intros H dec t F. destruct (from_json_id H dec _ _ F) as (p & P & I). rewrite I. cbn [id]. unfold id_struct.
+    destruct cross_path_collision as [E _]. rewrite E, P. reflexivity.
+  - apply is_ok_exists. vm_compute. reflexivity.
+Qed.
+
+(* F3: the stored transaction's own JSON form (dataType escaped by the map path)
+   has another pre-image *)
+Example datatype_json_trip_differs :
+  match to_json ex_H (fun b => b) (TxStruct ex_f_struct) with
+  | Some (JObj m) => pre_map m <> pre_struct ex_f_struct /\ pre_map m <> None
+  | _ => False
+  end.
+Proof. vm_compute. split; discriminate. Qed.
